@@ -1166,7 +1166,16 @@ func (f *FuncCtx) rangeStmt(s *ast.RangeStmt, env *Env, fl *flow, label string) 
 	}
 	idx := func(e *Env) Val { return e.names[iNameN] }
 	ghost := map[string]Val{iNameN: {T: "0", Typ: intT}, iName: {T: "0", Typ: intT}}
-	sync := func(e *Env) { e.names[iName] = e.names[iNameN] }
+	sync := func(e *Env) {
+		e.names[iName] = e.names[iNameN]
+		// a nested range loop overwrites the unnumbered ghosts: restore this loop's
+		if v, ok := e.names[fmt.Sprintf("$ks%d", ordNext)]; ok {
+			e.names["$ks"] = v
+		}
+		if v, ok := e.names[fmt.Sprintf("$m%d", ordNext)]; ok {
+			e.names["$m"] = v
+		}
+	}
 	post := func(e *Env) {
 		e.names[iNameN] = Val{T: fmt.Sprintf("(+ %s 1)", idx(e).T), Typ: intT}
 		sync(e)
@@ -1234,6 +1243,7 @@ func (f *FuncCtx) rangeStmt(s *ast.RangeStmt, env *Env, fl *flow, label string) 
 		ghost["$ks"] = Val{T: fmt.Sprintf("(mk_slice %s %s false)", seq, card), Typ: ksT}
 		ghost[fmt.Sprintf("$ks%d", ordNext)] = ghost["$ks"]
 		ghost["$m"] = x
+		ghost[fmt.Sprintf("$m%d", ordNext)] = x
 		implicit := func(e *Env) []string {
 			sync(e)
 			return []string{fmt.Sprintf("(<= 0 %s)", idx(e).T), fmt.Sprintf("(<= %s %s)", idx(e).T, card)}
